@@ -72,6 +72,8 @@ def engine_configs(tier, seed):
         c.update(tcpSmall=2, tcpLarge=1, udpClients=10 if not thorough else 16, tcpClients=4 if not thorough else 8,
                  rounds=r, burst=6, tcpConnsEach=6 if not thorough else 30, tcpFrames=8,
                  perturb=True, traceLimit=400000)
+        # bursts holding a destination the kernel refuses (batched send only): after the traced load
+        c["poison"] = (60 if not thorough else 400) if c["mode"] == "batch" else 0
     return cfgs
 
 
@@ -485,6 +487,14 @@ def engines(ctx, prefix="", only=None, secure=True, extended=None, scripts=None)
         if not res.get("violations") and (c.get("udp_datagrams_received", 0) < 50 or c.get("tcp_answered", 0) < 10
                                           or c.get("tcp_big_replies_ok", 0) < 8):
             raise vf.MachineryError("engine run %s is vacuous: %s" % (cfg["name"], info))
+        if not res.get("violations") and cfg.get("poison") and not c.get("poison_unavailable"):
+            if c.get("poison_good_answered_once", 0) < cfg["poison"]:
+                raise vf.MachineryError("engine run %s: the refused-destination bursts were not answered (%s)" % (
+                    cfg["name"], {k: v for k, v in c.items() if k.startswith("poison")}))
+            if c.get("poison_fallback_sends_behind_others", 0) == 0:
+                raise vf.MachineryError("engine run %s: no transmit group met a refused destination behind an accepted one (%s): "
+                                        "the per-reply fallback after a partial sendmmsg was not exercised" % (
+                                            cfg["name"], {k: v for k, v in c.items() if k.startswith("poison")}))
         if not res.get("violations") and cfg.get("scripts") and any(sc.get("fam") == "edge" for sc in cfg["scripts"]):
             if c.get("tcp_exact_replies_ok", 0) < 20 or c.get("tcp_exact_replies_off", 0) > c.get("tcp_exact_replies_ok", 0) // 10:
                 raise vf.MachineryError("engine run %s: the exact-size answers of the edge scripts missed their target lengths "
